@@ -134,6 +134,7 @@ pub fn fault_to_json(f: &Fault) -> Value {
         FaultKind::FailAs { flavour } => json!({"k": f.k, "kind": "fail_as", "flavour": flavour, "error": crate::disk::flavour_name(*flavour)}),
         FaultKind::Torn { keep } => json!({"k": f.k, "kind": "torn", "keep": keep}),
         FaultKind::DiskFull { heal } => json!({"k": f.k, "kind": "disk_full", "heal": heal}),
+        FaultKind::DiskFullZero { heal } => json!({"k": f.k, "kind": "disk_full_zero", "heal": heal}),
         FaultKind::Short { n } => json!({"k": f.k, "kind": "short", "n": n}),
         FaultKind::Eintr => json!({"k": f.k, "kind": "eintr"}),
         FaultKind::Crash => json!({"k": f.k, "kind": "crash"}),
@@ -147,6 +148,7 @@ pub fn fault_from_json(v: &Value) -> Result<Fault, String> {
         "fail_as" => FaultKind::FailAs { flavour: v["flavour"].as_u64().unwrap_or(0) as u8 },
         "torn" => FaultKind::Torn { keep: v["keep"].as_u64().unwrap_or(0) as usize },
         "disk_full" => FaultKind::DiskFull { heal: v["heal"].as_u64().unwrap_or(0) },
+        "disk_full_zero" => FaultKind::DiskFullZero { heal: v["heal"].as_u64().unwrap_or(0) },
         "short" => FaultKind::Short { n: v["n"].as_u64().unwrap_or(1) as usize },
         "eintr" => FaultKind::Eintr,
         "crash" => FaultKind::Crash,
